@@ -167,7 +167,7 @@ def run(chk, tier, seed):
     quick = tier == "quick"
     chk.rule = ("corpus = images of every container (ssd/sdd incl. hint-sensitive catalogue totals, Watford, Opus, dsd, ddd, mmb, hfe, mfm, tiny "
                 "and odd sizes) x gzip variants (levels 0/1/9, FNAME padding placing the compressed size at 0/1/511 mod 512, two members) x "
-                "commands; damaged streams = every truncation and every single-bit corruption (one bit per byte) of a small .gz; evaluation "
+                "commands; damaged streams = every truncation and every single-bit corruption (quick: one bit per byte; thorough: all eight) of a small .gz; evaluation "
                 "= one command compared between X and X.gz, or one damaged stream; non-trivial = command that succeeds on X; distinct by "
                 "(image, variant, command) / (damage position)")
     chk.assumptions = ["zlib itself is abstracted to its contract in Gzip.tla", "a corrupted header field that gzip ignores may leave the output identical"]
@@ -261,6 +261,9 @@ def run(chk, tier, seed):
         refout = {tuple(c): common.run([dfs, "--file", ref] + c) for c in (["cat"], ["type", "--binary", "Z"])}
         dmg = [("cut", k, good[:k]) for k in range(0, len(good))]
         dmg += [("flip", k, good[:k] + bytes([good[k] ^ (1 << (k % 8))]) + good[k + 1:]) for k in range(len(good))]
+        if not quick:                                 # thorough: the other seven bits of every byte as well (pos = 1000 * bit + byte)
+            dmg += [("flip", 1000 * (b + 1) + k, good[:k] + bytes([good[k] ^ (1 << ((k + b + 1) % 8))]) + good[k + 1:])
+                    for k in range(len(good)) for b in range(7)]
         dmg += [("notgz", 0, bytes(img)), ("notgz", 1, b""), ("notgz", 2, b"\x1f\x8b"), ("notgz", 3, good + b"trailing garbage"), ("notgz", 4, good[:10] + bytes(img))]
         if quick:
             dmg = [d for i, d in enumerate(dmg) if d[0] == "notgz" or d[1] < 40 or d[1] > len(good) - 24 or i % 3 == 0]
